@@ -32,6 +32,11 @@ func applyRemoveVal(skel *Skeleton, orig []byte, op Op, path *Path) error {
 	if len(op.Value) == 0 {
 		return fmt.Errorf("%w: REMOVE_VAL requires Value", ErrInvalidOp)
 	}
+	// Path must point at the array itself; the [] marker is only meaningful
+	// for APPEND / PREPEND (see applyDelete).
+	if path.Segments[len(path.Segments)-1].Kind == SegAppend {
+		return fmt.Errorf("%w: REMOVE_VAL cannot target append marker", ErrPathInvalid)
+	}
 	cur, err := path.Resolve(skel)
 	if err != nil {
 		return err
